@@ -119,6 +119,19 @@ CLAIMS = {
         "on a basis; global+local with all_local=True). Phase between pulses is not compared.",
         "DESIGN.md §3 C06",
     ),
+    "C05": (
+        "exploration",
+        "explicit-state BFS over building histories; for every reached program the emulator's Hamiltonian is compared at every "
+        "integer nanosecond with an independent dense Kronecker construction (RefHam) fed by the timeline snapshot",
+        "All programs reachable within depth 2-3 over 3-15 op alphabets on 8 worlds (two bases; global+local on one basis with a "
+        "permuted atom order; DMM weight map on a 3D register; XY with an SLM mask and two microwave channels; XY with tilted / "
+        "in-plane magnetic field on 2D and 3D registers; two globals on one basis; Rydberg levels 50/60/70/100): "
+        "get_hamiltonian(t) == documented formula to 1e-9 and Hermitian to 1e-12 for every integer t, with the documented state "
+        "ordering.",
+        "Integer times only (QuTiP interpolates between samples); 2-3 atoms; C6 read from the JSON table, C3 = 3700. Known "
+        "finding: two global channels on one basis.",
+        "DESIGN.md §3 C05",
+    ),
 }
 
 PENDING_REASON = "check not built yet in this round (design in DESIGN.md §3); nothing is claimed for it"
